@@ -423,12 +423,16 @@ class Parser:
         if self.__cstate(ttype, tvalue):
             return True
 
-        if ttype == "left_cbracket":
+        # Only a control command accepting children can open a block,
+        # any other control or action is ended by a semicolon.
+        ctype = self.__curcommand.get_type()
+        withblock = ctype == "control" and self.__curcommand.accept_children
+        if ttype == "left_cbracket" and withblock:
             self.__push_expected_bracket("right_cbracket", b"}")
             self.__cstate = None
             return True
 
-        if ttype == "semicolon":
+        if ttype == "semicolon" and ctype != "test" and not withblock:
             self.__cstate = None
             if not self.__check_command_completion(testsemicolon=False):
                 return False
